@@ -1,4 +1,6 @@
 import MaltModel.Proofs.C01Exprs
+import MaltModel.Proofs.C01ExprsStmt
+import MaltModel.Proofs.C01ExprsTarget
 /-
 C01, expression part — the expression wrappers are transparent under the default operators.
 
@@ -69,5 +71,81 @@ under Python semantics: same value or exception, same effect log, same environme
 theorem expr_wrappers_correct (X : Ext) (eqOn : Bool) (e : Malt.Sem.Expr) (σ : St) :
     evalW X (wrap eqOn (ofSem e)) σ = Malt.Sem.evalE X e σ := by
   rw [wrap_sem X eqOn (ofSem e) (chainsOk_ofSem e) σ, ofSem_eval]
+
+/-! ## From expressions to PROGRAMS
+
+`wrapS`/`wrapB` (Sem/WrappersStmt.lean) replace every expression of every statement of a `Malt.Sem` program by its
+converted form; `execW`/`execWB` run such generated code (wrapper forms under the default operators and a
+non-converting call policy, statements exactly as in `Malt.Sem`). -/
+
+/-- **Programs**: for EVERY statement of `Malt.Sem` (assignments, `if`, `while`, `for` with the extra loop test,
+`break`/`continue`/`return`/`raise`, `try`/`except`/`finally`, `with`), every fuel, oracle and state: the program
+with all its expressions converted runs exactly like the source — same outcome (normal / break / continue / return
+value / exception; `none` = out of fuel for the same fuel), same effect log, same environment. -/
+theorem wrap_stmt_correct (X : Ext) (eqOn : Bool) (n : Nat) (s : Malt.Sem.Stmt) (σ : St) :
+    execW X n (wrapS eqOn s) σ = Malt.Sem.exec X n s σ := by
+  unfold execW wrapS
+  rw [(gexec_map_congr_all (fun e => wrap eqOn (ofSem e)) (evalW X) (Malt.Sem.evalE X) (fun _ => true)
+        (fun e _ σ => expr_wrappers_correct X eqOn e σ) n).1 (toG s) σ (gallS_true _)]
+  exact ((exec_eq_gexec_all X n).1 s σ).symm
+
+theorem wrap_block_correct (X : Ext) (eqOn : Bool) (n : Nat) (p : Malt.Sem.Block) (σ : St) :
+    execWB X n (wrapB eqOn p) σ = Malt.Sem.execB X n p σ := by
+  unfold execWB wrapB
+  rw [(gexec_map_congr_all (fun e => wrap eqOn (ofSem e)) (evalW X) (Malt.Sem.evalE X) (fun _ => true)
+        (fun e _ σ => expr_wrappers_correct X eqOn e σ) n).2.1 (toGB p) σ (gallB_true _)]
+  exact ((exec_eq_gexec_all X n).2.1 p σ).symm
+
+/-- what an observer sees (outcome + log) is preserved -/
+theorem wrap_block_observe (X : Ext) (eqOn : Bool) (n : Nat) (p : Malt.Sem.Block) (σ : St) :
+    (execWB X n (wrapB eqOn p) σ).map Malt.Sem.observe = (Malt.Sem.execB X n p σ).map Malt.Sem.observe := by
+  rw [wrap_block_correct]
+
+/-- Programs over `SemW.Expr` (which may contain comparison chains and starred arguments): the same, under the
+hypothesis that every expression of the program is `chainsOk` (call-free middle operands; cf.
+`expr_wrappers_counterexample`). -/
+theorem wrap_wblock_correct_partial (X : Ext) (eqOn : Bool) (n : Nat) (p : WBlock) (h : gallB chainsOk p = true) (σ : St) :
+    execWB X n (wrapWB eqOn p) σ = execWB X n p σ := by
+  unfold execWB wrapWB
+  exact (gexec_map_congr_all (wrap eqOn) (evalW X) (evalW X) chainsOk
+        (fun e he σ => expr_wrappers_correct_partial X eqOn e he σ) n).2.1 p σ h
+
+/-! ### … and over the functionalised target language (`Malt.Func`, native semantics `execN`) -/
+
+/-- `ld` semantics in the target state: the converted expression, evaluated on the source-level view (placeholders
+read as unbound), behaves like the source expression under `Malt.Func.evalT`. -/
+theorem evalTW_wrap (X : Ext) (eqOn : Bool) (e : Malt.Sem.Expr) (σ : Malt.Func.TSt) :
+    evalTW X (wrap eqOn (ofSem e)) σ = Malt.Func.evalT X e σ := by
+  unfold evalTW Malt.Func.evalT
+  rw [expr_wrappers_correct]
+
+/-- **Functionalised programs**: for every `Malt.Func.TBlock` (the output of the control-flow pass: `if_stmt` /
+`while_stmt` / `for_stmt` forms with their `nonlocal` lists, `Undefined` pre-assignments, pass-through `with`/`try`),
+converting all its expressions leaves the native run (`_py_if_stmt`/`_py_while_stmt`/`_py_for_stmt` fallbacks, body
+functions with Python's local scoping) unchanged: same outcome, same log, same slots.  Chains with
+`wrap_block_correct`'s siblings: source ⟶ jump passes ⟶ functionalisation ⟶ expression wrappers. -/
+theorem wrap_target_correct (X : Ext) (eqOn : Bool) (n : Nat) (p : Malt.Func.TBlock) (σ : Malt.Func.TSt) :
+    execNBW X n (wrapTB eqOn p) σ = Malt.Func.execNB X n p σ := by
+  unfold execNBW wrapTB
+  rw [(gexecN_map_congr_all (fun e => wrap eqOn (ofSem e)) (evalTW X) (Malt.Func.evalT X) Expr.const Malt.Sem.Expr.const
+        (fun _ => true) (fun e _ σ => evalTW_wrap X eqOn e σ) (fun _ => rfl) (fun _ => rfl) n).2.1 (toGTB p) σ (gallTB_true _)]
+  exact ((execN_eq_gexecN_all X n).2.1 p σ).symm
+
+theorem wrap_target_stmt_correct (X : Ext) (eqOn : Bool) (n : Nat) (s : Malt.Func.TStmt) (σ : Malt.Func.TSt) :
+    execNW X n (wrapT eqOn s) σ = Malt.Func.execN X n s σ := by
+  unfold execNW wrapT
+  rw [(gexecN_map_congr_all (fun e => wrap eqOn (ofSem e)) (evalTW X) (Malt.Func.evalT X) Expr.const Malt.Sem.Expr.const
+        (fun _ => true) (fun e _ σ => evalTW_wrap X eqOn e σ) (fun _ => rfl) (fun _ => rfl) n).1 (toGT s) σ (gallT_true _)]
+  exact ((execN_eq_gexecN_all X n).1 s σ).symm
+
+/-- a non-trivial instance: `x = 0; while x < 2: x = x + f(x)` then `return g(x) if x else 0`; the converted
+program is what the theorem talks about and it really runs -/
+def demoProg : Malt.Sem.Block :=
+  [.assign "x" (.const (.int 0)),
+   .whileS (.bin .lt (.var "x") (.const (.int 2))) [.assign "x" (.bin .add (.var "x") (.call "f" [.var "x"]))],
+   .ret (some (.ite (.var "x") (.call "g" [.var "x"]) (.const (.int 0))))]
+
+example : (execWB cexX 40 (wrapB false demoProg) σ0).map Malt.Sem.observe
+    = some ⟨.ret (.int 1), [.call "f" [.int 0], .call "f" [.int 1], .call "g" [.int 2]]⟩ := by decide
 
 end Malt.C01Exprs
